@@ -98,6 +98,9 @@ func checkC04Format(c *BuildCase, f string, d *Decoded, raw []byte, vs *vlist) {
 		if d.Ar[2].Name != wantData {
 			vs.add("C04.deb.data-name", f, "data member is %q, compression %q calls for %q", d.Ar[2].Name, c.DebCompression, wantData)
 		}
+		if c.Signed != (len(d.Ar) == 4) {
+			vs.add("C04.deb.signature-member", f, "signing configured=%v but ar members are %v", c.Signed, names)
+		}
 		if len(d.Ar) > 4 || (len(d.Ar) == 4 && !strings.HasPrefix(d.Ar[3].Name, "_gpg")) {
 			vs.add("C04.deb.members", f, "unexpected trailing ar members: %v", names)
 		}
@@ -143,6 +146,9 @@ func checkC04Format(c *BuildCase, f string, d *Decoded, raw []byte, vs *vlist) {
 			if len(m.Data)%512 != 0 {
 				vs.add("C04.apk.segment-alignment", f, "segment %d has %d bytes, not a multiple of 512", i, len(m.Data))
 			}
+		}
+		if c.Signed != (n == 3) {
+			vs.add("C04.apk.signature-segment", f, "signing configured=%v but the package has %d segments", c.Signed, n)
 		}
 		if len(d.ControlTar) == 0 || d.ControlTar[0].Name != ".PKGINFO" {
 			vs.add("C04.apk.pkginfo-first", f, ".PKGINFO is not the first entry of the control segment")
@@ -234,6 +240,9 @@ func checkC04Format(c *BuildCase, f string, d *Decoded, raw []byte, vs *vlist) {
 				}
 			}
 		}
+		if c.Signed != (r.Sig.Has(268) && r.Sig.Has(1002)) {
+			vs.add("C04.rpm.signature-tags", f, "signing configured=%v, RSAHEADER present=%v, PGP present=%v", c.Signed, r.Sig.Has(268), r.Sig.Has(1002))
+		}
 		// lead: type 0 (binary), major 3
 		if r.Lead[4] != 3 {
 			vs.add("C04.rpm.lead", f, "lead major version %d", r.Lead[4])
@@ -271,7 +280,7 @@ func nontrivialC04(c *BuildCase) bool {
 			hasFile = true
 		}
 	}
-	special := (c.DebCompression != "" && c.DebCompression != "gzip") || (c.RPMCompression != "" && c.RPMCompression != "gzip") || len(c.Scripts) > 0
+	special := (c.DebCompression != "" && c.DebCompression != "gzip") || (c.RPMCompression != "" && c.RPMCompression != "gzip") || len(c.Scripts) > 0 || c.Signed
 	return hasFile && hasDir && special
 }
 
@@ -289,7 +298,11 @@ func TestC04(t *testing.T) {
 	rapid.Check(t, func(rt *rapid.T) {
 		c := genBuildCase(rt, c01Opts)
 		genSimpleScripts(rt, c)
+		c.Signed = rapid.IntRange(0, 2).Draw(rt, "signed") == 0
 		labels, _, _ := classifyBuildCase(c)
+		if c.Signed {
+			labels = append(labels, "signed")
+		}
 		if len(c.Scripts) > 0 {
 			labels = append(labels, "scripts")
 		}
